@@ -43,6 +43,7 @@ static char g_plan_id[128] = "-";
 static int g_nviol;
 static int g_wall_limit = 60;
 static int g_emit_trace = 0;
+static int g_stop_on_fail = 0, g_failed = 0;
 
 /* ------------------------------------------------------------------ verdict plumbing */
 
@@ -160,7 +161,7 @@ static void world_defaults(void)
     W.nthreads_icv = 16; W.max_active_levels = 1; W.thread_limit = 64;
     W.max_steps = 50000000ULL; W.junk_on = 1; W.junk_seed = 1; W.alloc_fail_at = -1;
     W.clock_epoch = 1700000000; W.clock_step = 0; W.explicit_decisions = 0;
-    g_wall_limit = 60; g_emit_trace = 0; g_hooks_log_on = 0; g_c10_on = 1;
+    g_wall_limit = 60; g_emit_trace = 0; g_hooks_log_on = 0; g_c10_on = 1; g_stop_on_fail = 0;
 }
 
 static void set_world(const char *k, const char *v)
@@ -192,6 +193,7 @@ static void set_world(const char *k, const char *v)
     else if (!strcmp(k, "trace")) g_emit_trace = (int)x;
     else if (!strcmp(k, "evlog")) g_hooks_log_on = (int)x;
     else if (!strcmp(k, "c10")) g_c10_on = (int)x;
+    else if (!strcmp(k, "stop_on_fail")) g_stop_on_fail = (int)x;
     else sim_fatal("HARNESS", "unknown world key %s", k);
 }
 
@@ -228,6 +230,11 @@ static void dump_msa(int idx, int sl)
 static void exec_op(int idx, OpLine *o)
 {
     const char *op = o->tok[0];
+    if (g_stop_on_fail && g_failed && strcmp(op, "F") && strcmp(op, "L") && strcmp(op, "D")) {
+        /* a caller that checks return codes does not go on after a failed call */
+        fprintf(g_out, "r %d %s rc=-777 skipped=1\n", idx, op);
+        return;
+    }
     if (!strcmp(op, "A")) {
         /* A nthreads type gpo gpe tgpe n seqhex... */
         int nthreads = atoi(o->tok[1]), type = atoi(o->tok[2]);
@@ -259,6 +266,7 @@ static void exec_op(int idx, OpLine *o)
         leave();
         g_slot_final[sl] = 0;
         fprintf(g_out, "r %d R rc=%d null=%d\n", idx, rc, g_slot[sl] == NULL);
+        if (rc != 0) g_failed = 1;
         sim_xfree(path);
     } else if (!strcmp(op, "X")) {
         int sl = atoi(o->tok[1]);
@@ -267,12 +275,14 @@ static void exec_op(int idx, OpLine *o)
         leave();
         if (rc == 0) g_slot_final[sl] = 1;
         fprintf(g_out, "r %d X rc=%d\n", idx, rc);
+        if (rc != 0) g_failed = 1;
     } else if (!strcmp(op, "W")) {
         int sl = atoi(o->tok[1]); size_t l, fl; char *path = (char *)unhex(o->tok[2], &l); char *fmt = (char *)unhex(o->tok[3], &fl);
         enter();
         int rc = kalign_write_msa(g_slot[sl], l ? path : NULL, fl ? fmt : NULL);
         leave();
         fprintf(g_out, "r %d W rc=%d\n", idx, rc);
+        if (rc != 0) g_failed = 1;
         sim_xfree(path); sim_xfree(fmt);
     } else if (!strcmp(op, "Z")) {
         int sl = atoi(o->tok[1]);
@@ -329,7 +339,7 @@ static void exec_op(int idx, OpLine *o)
 static void run_plan(void)
 {
     simomp_reset(); simclock_reset(); simalloc_reset(); hooks_reset();
-    g_nviol = 0;
+    g_nviol = 0; g_failed = 0;
     alarm((unsigned)g_wall_limit);
     for (size_t i = 0; i < g_nops; i++) exec_op((int)i, &g_ops[i]);
     alarm(0);
